@@ -647,7 +647,7 @@ type race3Result struct {
 	stuck            string // the scenario could not be driven (not a finding)
 }
 
-const race3Timeout = 20 * time.Second
+var race3Timeout = hx.ScaledTimeout(20 * time.Second)
 
 // race3 drives the interleaving: T1 keeps the lazily loaded directory D of
 // directory p locked (its GetDirectory is suspended), T2 looks D up from p with
